@@ -26,12 +26,12 @@ from sim.engine_fault import make_exact_engine
 PROP = 'C18'
 WL_DIR = os.path.join(core.VERIF, 'workloads')
 WL_FILES = {'main': 'c18_main.py', 'alt': 'c18_alt.py', 'cap': 'c18_captured.py', 'fac': 'c18_factory.py', 'lib': 'c18_lib.py'}
-CTX_NAMES = [None, 'FP64', 'FP32', 'FP16', 'RTZ16', 'RTP16', 'RTN32', 'RAZ8', 'MP5', 'FX4', 'REAL', 'FXF', 'MP40', 'FXM']
-FLOAT_CTXS = ['FP64', 'FP32', 'FP16', 'RTZ16', 'RTP16', 'RTN32', 'RAZ8', 'MP5', 'MP40']
+CTX_NAMES = [None, 'FP64', 'FP32', 'FP16', 'RTZ16', 'RTP16', 'RTN32', 'RAZ8', 'MP5', 'FX4', 'REAL', 'FXF', 'MP40', 'FXM', 'MP12', 'MP25']
+FLOAT_CTXS = ['FP64', 'FP32', 'FP16', 'RTZ16', 'RTP16', 'RTN32', 'RAZ8', 'MP5', 'MP40', 'MP12', 'MP25']
 FIXED_CTXS = ['FX4', 'FXM', 'FXF']
 OTHER_CTXS = [None, 'REAL', 'FP64']
 # contexts ordered by how fine their grid is near 1
-RESOLUTION = ['RAZ8', 'MP5', 'FX4', 'FP16', 'RTZ16', 'RTP16', 'FXM', 'FP32', 'RTN32', 'FXF', 'MP40', 'FP64', None, 'REAL']
+RESOLUTION = ['RAZ8', 'MP5', 'FX4', 'FP16', 'RTZ16', 'RTP16', 'MP12', 'FXM', 'FP32', 'RTN32', 'MP25', 'FXF', 'MP40', 'FP64', None, 'REAL']
 HOT = frozenset(['eval', 'compile', '_compile', 'to_value', 'from_value', '_mpfr_call_with_prec', '__iter__', 'mpfr_call',
                  '_visit_context', '_normalize', 'register', '_func_ctx', '_call_fpy', '_eval_call', 'round',
                  '_default_function_call', 'make_namespace', '__call__'])
